@@ -1000,7 +1000,14 @@ class Sense(_Relatable):
             Word('pwn-spigot-n')
 
         """
-        return self._wordnet.word(id=self._entry_id)
+        # the entry id may also be used by other selected lexicons, so
+        # take the entry of this sense's lexicon (or one it extends)
+        home = {self._lexid, *get_lexicon_extension_bases(self._lexid)}
+        lexids = self._wordnet._lexicon_ids
+        for data in find_entries(id=self._entry_id, lexicon_rowids=lexids):
+            if data[3] in home:
+                return Word(*data, self._wordnet)
+        raise wn.Error(f'no such lexical entry: {self._entry_id}')
 
     def synset(self) -> Synset:
         """Return the synset of the sense.
@@ -1011,7 +1018,13 @@ class Sense(_Relatable):
             Synset('pwn-03325088-n')
 
         """
-        return self._wordnet.synset(id=self._synset_id)
+        # see the comment in Sense.word()
+        home = {self._lexid, *get_lexicon_extension_bases(self._lexid)}
+        lexids = self._wordnet._lexicon_ids
+        for data in find_synsets(id=self._synset_id, lexicon_rowids=lexids):
+            if data[3] in home:
+                return Synset(*data, _wordnet=self._wordnet)
+        raise wn.Error(f'no such synset: {self._synset_id}')
 
     def examples(self) -> list[str]:
         """Return the list of examples for the sense."""
